@@ -45,29 +45,56 @@ class SequenceObserver:
         self._error = None
         self._results = []
         self._observers = []
+        # observers that have been matched with a result, in order; each
+        # match has one _deliver_one() call waiting in the eventual queue
+        self._matched_observers = []
+        self._matched_results = []
 
     def when_next_event(self):
-        d = Deferred()
+        # a caller that gives up (d.cancel(), e.g. from addTimeout) must not
+        # swallow the next event
+        d = Deferred(canceller=self._stop_waiting)
         if self._error:
-            self._eq.eventually(d.errback, self._error)
-        elif self._results:
-            result = self._results.pop(0)
-            self._eq.eventually(d.callback, result)
+            self._eq.eventually(self._errback_one, d)
         else:
             self._observers.append(d)
+            self._match()
         return d
 
     def fire(self, result):
         if isinstance(result, Failure):
             self._error = result
             for d in self._observers:
-                self._eq.eventually(d.errback, self._error)
+                self._eq.eventually(self._errback_one, d)
             self._observers = []
         else:
             self._results.append(result)
-            if self._observers:
-                d = self._observers.pop(0)
-                self._eq.eventually(d.callback, self._results.pop(0))
+            self._match()
+
+    def _match(self):
+        if self._observers and self._results:
+            self._matched_observers.append(self._observers.pop(0))
+            self._matched_results.append(self._results.pop(0))
+            self._eq.eventually(self._deliver_one)
+
+    def _deliver_one(self):
+        if self._matched_observers:
+            d = self._matched_observers.pop(0)
+            d.callback(self._matched_results.pop(0))
+
+    def _errback_one(self, d):
+        if not d.called:
+            d.errback(self._error)
+
+    def _stop_waiting(self, d):
+        if d in self._observers:
+            self._observers.remove(d)
+        elif d in self._matched_observers:
+            # everyone behind it moves up by one event, and the last of
+            # the matched events is unread again
+            self._matched_observers.remove(d)
+            self._results.insert(0, self._matched_results.pop())
+            self._match()
 
 
 class EmptyableSet(set):
